@@ -123,11 +123,14 @@ static int       app_outstanding;
 static int       app_cb_depth;
 static int       app_in_cancel, app_in_destroy, app_in_start, app_in_process;
 static int       app_cancel_in_cb_used, app_start_in_cb_used;
+static int       app_in_set_servers; /* inside ares_set_servers*: old and new servers coexist transiently */
 static int       app_max_tokens = 48;
 static long      app_total_cb; /* callbacks delivered in this case */
 
 /* scripted actions */
-enum { AA_START = 1, AA_CANCEL, AA_SET_SERVERS, AA_SET_SORTLIST, AA_REINIT, AA_READONLY, AA_DUP, AA_JUMP, AA_LOCALADDR, AA_ADVERSARY };
+enum { AA_START = 1, AA_CANCEL, AA_SET_SERVERS, AA_SET_SORTLIST, AA_REINIT, AA_READONLY, AA_DUP, AA_JUMP, AA_LOCALADDR, AA_ADVERSARY, AA_SRVMOOD };
+static void (*hl_config_hook)(const int *idx, int n); /* server list (re)installed */
+static void gen_srv_mood_fwd(int srv, int moodidx);
 static void prov_inject(void);
 typedef struct {
   int64_t t;
@@ -992,7 +995,7 @@ static void app_do_action(app_act_t *a)
       }
     case AA_SET_SERVERS:
       {
-        int  idx[SIM_MAXSRV], n = 0;
+        int  idx[SIM_MAXSRV], n = 0, x_rc;
         char csv[1024];
         gen_alt_servers(idx, &n, &app_rng);
         app_servers_csv(csv, sizeof(csv), idx, n);
@@ -1003,7 +1006,10 @@ static void app_do_action(app_act_t *a)
             app_srv_ever_mask |= 1u << idx[x];
           }
         }
-        if (ares_set_servers_ports_csv(app_channel, csv) == ARES_SUCCESS) {
+        app_in_set_servers = 1;
+        x_rc = (int)ares_set_servers_ports_csv(app_channel, csv);
+        app_in_set_servers = 0;
+        if (x_rc == ARES_SUCCESS) {
           /* does the SET of servers differ? (re-installing the same set is not a change) */
           int differs = (n != app_cfg.nsrv_cfg), x, y;
           for (x = 0; x < n && !differs; x++) {
@@ -1022,6 +1028,9 @@ static void app_do_action(app_act_t *a)
           }
           memcpy(app_cfg.srv_cfg, idx, sizeof(int) * (size_t)n);
           app_cfg.nsrv_cfg = n;
+          if (hl_config_hook) {
+            hl_config_hook(idx, n);
+          }
         }
         mon_quiescent("set_servers");
         break;
@@ -1067,6 +1076,10 @@ static void app_do_action(app_act_t *a)
     case AA_JUMP:
       sim_now_us += (int64_t)a->arg * 1000;
       sim_note("time_jump");
+      break;
+    case AA_SRVMOOD:
+      gen_srv_mood_fwd(a->arg / 16, a->arg % 16);
+      sim_note("server_mood_change");
       break;
     case AA_ADVERSARY:
       prov_inject();
